@@ -499,7 +499,13 @@ class WalText:
             if r < 0.6:
                 c = chr(rng.randrange(32, 127))
             else:
-                c = rng.choice(['\n', '\t', '\\', '"', "'", '\r', '\a', '\b', '\f', '\v', '\x01', 'A'])
+                c = rng.choice(['\n', '\t', '\\', '"', "'", '\r', '\a', '\b', '\f', '\v', '\x01', 'A', 'BSQ', 'QBS'])
+            if c in ('BSQ', 'QBS'):
+                # a backslash directly before / after a double quote
+                two = '\\"' if c == 'BSQ' else '"\\'
+                s += two
+                txt += '\\\\\\"' if c == 'BSQ' else '\\"\\\\'
+                continue
             s += c
             if c == '"':
                 txt += '\\"'
